@@ -64,6 +64,38 @@ func TestFindingF3StringyDoubleReply(t *testing.T) {
 	}
 }
 
+// encResp answers like the library's response object as far as encoding goes: a reply that cannot be marshalled is an
+// error and is not counted as written
+type encResp struct{ written []tq.EncoderDecoder }
+
+func (c *encResp) Reply(v tq.EncoderDecoder) (int, error) {
+	if _, err := v.MarshalBinary(); err != nil {
+		return 0, err
+	}
+	c.written = append(c.written, v)
+	return 0, nil
+}
+func (c *encResp) ReplyWithContext(ctx context.Context, v tq.EncoderDecoder, w ...tq.Writer) (int, error) {
+	return c.Reply(v)
+}
+func (c *encResp) Write(p *tq.Packet) (int, error) { return 0, nil }
+func (c *encResp) Next(n tq.Handler)               {}
+func (c *encResp) RegisterWriter(tq.Writer)        {}
+func (c *encResp) Context(ctx context.Context)     {}
+
+// F12: a configured value that no reply argument can carry left the accepted request without any reply
+func TestFindingF12UnencodableSessionValue(t *testing.T) {
+	l := NewCapLog(nil, false)
+	u := config.User{Name: "alice", Scopes: []string{"s1"}, Services: []config.Service{{Name: "shell",
+		SetValues: []config.Value{{Name: "roles", Values: []string{strings.Repeat("r", 300)}}}}}}
+	h, _ := stringy.New(l).New(u)
+	r := &encResp{}
+	h.Handle(r, authorReq(t, "alice", "service=shell"))
+	if len(r.written) != 1 {
+		t.Fatalf("session authorization wrote %d replies for a value that cannot be encoded, want exactly one", len(r.written))
+	}
+}
+
 type failSecret struct{}
 
 func (failSecret) GetSecret(ctx context.Context, name, group string) ([]byte, error) {
